@@ -215,3 +215,77 @@ func TestVerifRollingWindowConcurrent(t *testing.T) {
 		})
 	}
 }
+
+// Real time does not stand still inside an operation: the clock may have moved on between
+// two reads of it within one Add (environment deviation, vrt.SetClockStep).  An add is then
+// attributed to any bucket between the one current when it began and the one current when it
+// returned; everything else is judged as before: nothing older than `size` buckets is seen,
+// nothing recent is lost.
+func TestVerifRollingWindowClockMovesInsideAdd(t *testing.T) {
+	defer vrt.WriteReport()
+	if !vrt.Shard(7) {
+		return
+	}
+	for _, size := range []int{2, 3} {
+		for _, startMs := range []int{199, 299, 499} {
+			size, startMs := size, startMs
+			vrt.Explore(vrt.Options{Name: fmt.Sprintf("rollingwindow/clock-moves-inside-add/size=%d/at=%dms", size, startMs), Bound: 2}, func(r *vrt.Run) {
+				w := NewRollingWindow(size, rwInterval)
+				t0 := vrt.Elapsed()
+				bucket := func(d time.Duration) int { return int((d - t0) / rwInterval) }
+				vrt.Advance(150 * time.Millisecond)
+				w.Add(1) // bucket 1, no doubt about it
+				vrt.Advance(time.Duration(startMs-150) * time.Millisecond)
+				vrt.SetClockStep(2 * time.Millisecond)
+				lo := bucket(vrt.Elapsed())
+				w.Add(3)
+				hi := bucket(vrt.Elapsed())
+				vrt.SetClockStep(0)
+				r.Outcome("second add in bucket %d..%d", lo, hi)
+				for k := 0; k < size+3; k++ {
+					next := time.Duration((hi+1+k)*100+50)*time.Millisecond + t0
+					vrt.Advance(next - vrt.Elapsed())
+					now := bucket(vrt.Elapsed())
+					var got []string
+					w.Reduce(func(b *Bucket) {
+						if b.Count != 0 {
+							got = append(got, fmt.Sprintf("%g/%d", b.Sum, b.Count))
+						}
+					})
+					sort.Strings(got)
+					okAny := false
+					var wants []string
+					for b2 := lo; b2 <= hi; b2++ {
+						agg := map[int]*Bucket{}
+						for _, a := range []struct {
+							b int
+							v float64
+						}{{1, 1}, {b2, 3}} {
+							if a.b <= now-size || a.b > now {
+								continue
+							}
+							if agg[a.b] == nil {
+								agg[a.b] = &Bucket{}
+							}
+							agg[a.b].Sum += a.v
+							agg[a.b].Count++
+						}
+						var want []string
+						for _, x := range agg {
+							want = append(want, fmt.Sprintf("%g/%d", x.Sum, x.Count))
+						}
+						sort.Strings(want)
+						wants = append(wants, fmt.Sprint(want))
+						if fmt.Sprint(want) == fmt.Sprint(got) {
+							okAny = true
+						}
+					}
+					if !okAny {
+						r.Failf("window of %d buckets, Add(1) in bucket 1, Add(3) between bucket %d and %d (the clock moved during the call): in bucket %d Reduce sees %v, want one of %v", size, lo, hi, now, got, wants)
+						return
+					}
+				}
+			})
+		}
+	}
+}
